@@ -20,6 +20,7 @@ NATIVE_ENV = {
     'pow2': lambda k: 2 ** k,
     'implies': lambda a, b: (not a) or b,
     'ite': lambda c, a, b: a if c else b,
+    'tb_byte': lambda u, n, little, j: u.to_bytes(n, 'little' if little else 'big')[j],
 }
 
 
@@ -71,15 +72,24 @@ def prove_lemma(repo, reg, name, timeout_ms):
                             model=f'native evaluation failed: {e!r} at {env}', statement=stmt)
         return dict(name=name, status='proved', backend=f'axiom(validated on {ok} samples, not proved)',
                     time=time.time() - t0, statement=stmt)
-    # by smt
     from .engine import Executor
-    from .verify import lemma_formula
+    from .verify import lemma_formula, lemma_body
+    from .discharge import Q, solve_conj
     ex = Executor(repo, reg)
-    f = lemma_formula(ex, name)
-    s = z3.Solver()
-    s.set('timeout', timeout_ms)
-    s.add(z3.Not(f))
-    r = s.check()
-    st = {z3.unsat: 'proved', z3.sat: 'refuted'}.get(r, 'unknown')
-    return dict(name=name, status=st, backend='z3', time=time.time() - t0, statement=stmt,
-                model=str(s.model())[:2000] if r == z3.sat else None)
+    if lm.by == 'induction':
+        bound, body = lemma_body(ex, name)
+        n = bound[lm.induct].z
+        prev = z3.substitute(body, (n, n - 1))
+        res = []
+        for what, hyp in (('base', [n <= 0]), ('step', [n > 0, prev])):
+            r = solve_conj(Q(hyp, body), timeout_ms, False)
+            res.append((what, r['status']))
+        if all(r == 'proved' for _, r in res):
+            return dict(name=name, status='proved', backend=f'z3 (induction on {lm.induct}: base + step)',
+                        time=time.time() - t0, statement=stmt)
+        return dict(name=name, status='unknown', backend='z3', time=time.time() - t0, statement=stmt, model=str(res))
+    # by smt
+    bound, body = lemma_body(ex, name)
+    r = solve_conj(Q([], body), timeout_ms, False)
+    return dict(name=name, status=r['status'], backend='z3', time=time.time() - t0, statement=stmt,
+                model=r.get('smt_model'))
